@@ -528,6 +528,7 @@ class Interp(BuiltinsMixin):
                 results.extend(self.exec_block(st.body, fr, q))
         # merge
         out = []
+        exits = []
         after = entry
         base_heap_ids = set(entry.heap)
         for (q, sig) in results:
@@ -539,6 +540,14 @@ class Interp(BuiltinsMixin):
                 q.loops = entry.loops
                 q.notes.append(('exit-in-loop', loop))
                 out.append((q, sig))
+                if not (isinstance(sig, Raise) and sig.implicit):
+                    delta = [(self.snapshot(c, q), pol)
+                             for (c, pol) in q.pc[entry_pc_len:]]
+                    exits.append(App('exists',
+                                     loop.var if loop.var is not None
+                                     else Const(None), loop.iterable,
+                                     Tup(Tup((c, Const(pol)))
+                                         for (c, pol) in delta)))
         # variables assigned in the body: widened after the loop, unless
         # they refer to containers
         f = after.heap[fr]
@@ -550,6 +559,10 @@ class Interp(BuiltinsMixin):
             f.vars[st.target.id] = after.fresh('last_' + st.target.id,
                                                meta=('elem', loop.iterable))
         after.notes.append(('loop', loop))
+        # falling out of the loop: no iteration took an early exit
+        for e in exits:
+            if (e, False) not in after.pc:
+                after.pc.append((e, False))
         out = self.exec_block(st.orelse, fr, after) + out
         return out
 
